@@ -78,6 +78,7 @@ top:
 // element.
 func (x Expr) Walk(data any, cb func(path Expr, nodes []any)) {
 	if 0 < len(x) {
+		x = x.rootedFilters(data)
 		x[0].Walk(x[1:], Expr{}, []any{data}, cb)
 	}
 }
